@@ -90,6 +90,7 @@ func TestVerifC02Gating(t *testing.T) {
 	defer srv.Close()
 	base := t.TempDir()
 	rapid.Check(t, func(t *rapid.T) {
+		defer vuProcessZone(t)()
 		dir := vuFreshDir(base)
 		defer os.RemoveAll(dir)
 		start := vgen.StartTime(t)
